@@ -25,6 +25,8 @@ from liquid2.builtin import StringLiteral
 from liquid2.builtin import parse_keyword_arguments
 from liquid2.builtin.content import ContentNode
 from liquid2.builtin.output import OutputNode
+from liquid2.exceptions import TranslationKeyError
+from liquid2.exceptions import TranslationValueError
 from liquid2.exceptions import TranslationSyntaxError
 from liquid2.limits import to_int
 from liquid2.messages import MESSAGES
@@ -267,7 +269,13 @@ class TranslateNode(Node, TranslatableTag):
             for k in self.re_vars.findall(message_text)
         }
 
-        return message_text % _vars
+        try:
+            return message_text % _vars
+        except KeyError as err:
+            raise TranslationKeyError(str(err), token=None) from err
+        except (ValueError, TypeError) as err:
+            # For example, a stray "%" in the message text.
+            raise TranslationValueError(str(err), token=None) from err
 
 
 class TranslateTag(Tag):
